@@ -173,6 +173,10 @@ func compareInt(a, b int) int {
 
 // parseNum returns the integer value and true if s is a valid number, otherwise 0 and false
 func parseNum(s string) (int, bool) {
+	// Only all-digit identifiers are numeric: Atoi alone would also accept a sign ("-5")
+	if strings.TrimLeft(s, "0123456789") != "" {
+		return 0, false
+	}
 	if num, err := strconv.Atoi(s); err == nil {
 		return num, true
 	}
